@@ -1,0 +1,13 @@
+//go:build verif
+
+package templater
+
+// Contracts for govc (see /verif/DESIGN.md). Comment-only file: no executable code.
+
+// C16: rendering one field does not touch anything another process's rendering can see: the templater keeps
+// no state besides its first error, and neither the global nor the per-process vars are written.
+//@ func (t *Templater) render
+//@   ensures empty: str == "" ==> result == ""
+//@   ensures failed: old(t.err) != nil ==> result == "" && t.err == old(t.err)
+//@   ensures identity: old(t.err) == nil && len(t.vars) == 0 && len(extra) == 0 ==> result == str
+//@   assigns t.err
